@@ -1,11 +1,722 @@
-//! C09 (not built yet)
-use crate::report::{Disagreement, Run};
-use serde_json::Value;
+//! C09 Printing a formula and parsing it back preserves its meaning.
+//!
+//! `term` engine: formula texts are enumerated fully parenthesised (so the text fixes the tree), parsed ONCE by the
+//! real parser (English, A1) to obtain a tree the parser produces, and then for every printer p
+//!     parse_p(print_p(t)) == t          (Node equality)
+//! with p in { display form in each of 5 languages x 6 locales (re-read by a parser of that language/locale),
+//! stored R1C1 form (re-read in R1C1 mode, English), xlsx export form (re-read in A1 mode, English, compared modulo
+//! implicit-intersection operators, which export drops and import re-inserts by design) }.
+//! A failing tree is minimised (descend into failing sub-trees) and the culprit child is identified by substitution;
+//! the signature is (printer, parent kind, child kind, side).
+//! Second oracle at model level: type the formula, read it back (`get_cell_formula`), re-enter that text, and
+//! to_bytes/from_bytes: stored R1C1 text, shown text and value stay the same.
 
-pub fn run(run: &mut Run) {
-    run.machinery_errors.push("C09: check not built yet".into());
+use crate::fx;
+use crate::report::{Disagreement, Run};
+use ironcalc_base::expressions::parser::stringify::{to_excel_string, to_localized_string, to_rc_format};
+use ironcalc_base::expressions::parser::{DefinedNameS, Node, Parser};
+use ironcalc_base::expressions::types::CellReferenceRC;
+use ironcalc_base::Model;
+use serde_json::{json, Value};
+use std::collections::BTreeMap;
+
+pub const SHEETS: [&str; 4] = ["Sheet1", "Sheet2", "My Sheet", "It's"];
+const CROW: i32 = 3;
+const CCOL: i32 = 3;
+
+pub fn names() -> Vec<DefinedNameS> {
+    vec![
+        ("nm".to_string(), None, "Sheet1!$A$1".to_string()),
+        ("rng".to_string(), None, "Sheet1!$A$1:$B$2".to_string()),
+        ("loc".to_string(), Some(0), "Sheet2!$A$1".to_string()),
+    ]
 }
 
-pub fn replay(_case: &Value) -> Vec<Disagreement> {
-    vec![]
+fn cx() -> CellReferenceRC {
+    fx::ctx("Sheet1", CROW, CCOL)
+}
+
+#[derive(Clone, Debug, PartialEq, Eq, PartialOrd, Ord)]
+pub enum Printer {
+    Display(&'static str, &'static str), // language, locale
+    Rc,
+    Excel,
+}
+
+impl Printer {
+    fn id(&self) -> String {
+        match self {
+            Printer::Display(l, c) => format!("display:{}:{}", l, c),
+            Printer::Rc => "rc".into(),
+            Printer::Excel => "excel".into(),
+        }
+    }
+    fn from_id(s: &str) -> Option<Printer> {
+        if s == "rc" {
+            return Some(Printer::Rc);
+        }
+        if s == "excel" {
+            return Some(Printer::Excel);
+        }
+        let p: Vec<&str> = s.split(':').collect();
+        if p.len() == 3 && p[0] == "display" {
+            let l = fx::LANGS.iter().find(|x| **x == p[1])?;
+            let c = fx::LOCALES.iter().find(|x| **x == p[2])?;
+            return Some(Printer::Display(l, c));
+        }
+        None
+    }
+}
+
+pub fn all_display() -> Vec<Printer> {
+    let mut v = vec![];
+    for l in fx::LANGS {
+        for c in fx::LOCALES {
+            v.push(Printer::Display(l, c));
+        }
+    }
+    v
+}
+
+pub struct Env {
+    src: Parser<'static>,
+    rc: Parser<'static>,
+    disp: BTreeMap<(&'static str, &'static str), Parser<'static>>,
+}
+
+impl Env {
+    pub fn new() -> Env {
+        let src = fx::mk_parser(&SHEETS, names(), fx::loc("en"), fx::lang("en"));
+        let mut rc = fx::mk_parser(&SHEETS, names(), fx::loc("en"), fx::lang("en"));
+        fx::set_rc(&mut rc, true);
+        let mut disp = BTreeMap::new();
+        for l in fx::LANGS {
+            for c in fx::LOCALES {
+                disp.insert((l, c), fx::mk_parser(&SHEETS, names(), fx::loc(c), fx::lang(l)));
+            }
+        }
+        Env { src, rc, disp }
+    }
+    pub fn parse_source(&mut self, text: &str) -> Node {
+        self.src.parse(text, &cx())
+    }
+}
+
+impl Default for Env {
+    fn default() -> Self {
+        Env::new()
+    }
+}
+
+/// None = round trip holds. Some((printed, reparsed)) otherwise.
+fn roundtrip(t: &Node, p: &Printer, env: &mut Env) -> Option<(String, String)> {
+    let r = crate::env::guarded(|| match p {
+        Printer::Display(l, c) => {
+            let s = to_localized_string(t, &cx(), fx::loc(c), fx::lang(l));
+            let got = env.disp.get_mut(&(*l, *c)).expect("parser").parse(&s, &cx());
+            if &got != t {
+                Some((s, fx::short(&got)))
+            } else {
+                None
+            }
+        }
+        Printer::Rc => {
+            let s = to_rc_format(t);
+            let got = env.rc.parse(&s, &cx());
+            if &got != t {
+                Some((s, fx::short(&got)))
+            } else {
+                None
+            }
+        }
+        Printer::Excel => {
+            let s = to_excel_string(t, &cx());
+            let mut got = env.src.parse(&s, &cx());
+            let mut want = t.clone();
+            fx::strip_ii(&mut got);
+            fx::strip_ii(&mut want);
+            if got != want {
+                Some((s, fx::short(&got)))
+            } else {
+                None
+            }
+        }
+    });
+    match r {
+        Ok(x) => x,
+        Err(p) => Some((format!("<panic {}>", p), "<panic>".into())),
+    }
+}
+
+fn minimal<'n>(t: &'n Node, p: &Printer, env: &mut Env) -> &'n Node {
+    for (_, c) in fx::children(t) {
+        if matches!(c, Node::EmptyArgKind) {
+            continue;
+        }
+        if roundtrip(c, p, env).is_some() {
+            return minimal(c, p, env);
+        }
+    }
+    t
+}
+
+fn kc(n: &Node) -> String {
+    match n {
+        Node::CompareKind { .. } => "Compare".into(),
+        Node::FunctionKind { kind, args } if args.is_empty() => format!("Function({:?})", kind),
+        // `*` is the wildcard of the known-findings matcher: spell the product sign differently in signatures
+        other => fx::kind(other).replace('*', "×"),
+    }
+}
+
+/// The defect class of a failing tree under one printer: "parent=.. child=.. side=..".
+fn classify(t: &Node, p: &Printer, env: &mut Env) -> Option<(String, String)> {
+    let (printed, got) = roundtrip(t, p, env)?;
+    let m = minimal(t, p, env);
+    let kids = fx::children(m);
+    if kids.is_empty() {
+        return Some((format!("leaf={}", kc(m)), format!("`{}` -> {}", printed, got)));
+    }
+    let (mp, mg) = roundtrip(m, p, env).unwrap_or((printed.clone(), got.clone()));
+    let detail = format!(
+        "smallest failing sub-tree prints as `{}` and is read back as {}\nsub-tree: {}",
+        mp,
+        mg,
+        fx::short(m)
+    );
+    // which part is misprinted? substitute the neutral leaf `1` for children and see what still fails
+    let replaceable = |side: &str, c: &Node| !matches!(c, Node::EmptyArgKind) && side != "callee";
+    if !matches!(m, Node::OpRangeKind { .. }) {
+        let mut bare = m.clone();
+        for (i, (side, c)) in kids.iter().enumerate() {
+            if replaceable(side, c) {
+                bare = fx::with_child(&bare, i, Node::NumberKind(1.0));
+            }
+        }
+        if roundtrip(&bare, p, env).is_some() {
+            // fails whatever its operands are: the node itself
+            return Some((format!("node={}", kc(m)), detail));
+        }
+        for (i, (side, c)) in kids.iter().enumerate() {
+            if !replaceable(side, c) {
+                continue;
+            }
+            // keep only child i, neutralise the others
+            let mut only = m.clone();
+            for (j, (sj, cj)) in kids.iter().enumerate() {
+                if j != i && replaceable(sj, cj) {
+                    only = fx::with_child(&only, j, Node::NumberKind(1.0));
+                }
+            }
+            if roundtrip(&only, p, env).is_some() {
+                return Some((format!("parent={} child={} side={}", kc(m), kc(c), side), detail));
+            }
+        }
+    }
+    let all: Vec<String> = kids.iter().map(|(s, c)| format!("{}:{}", s, kc(c))).collect();
+    Some((format!("parent={} children=[{}]", kc(m), all.join(",")), detail))
+}
+
+/// Defect class of `t` under the display printer of (language, locale), if its round trip fails (used by C10).
+pub fn classify_public(t: &Node, l: &'static str, c: &'static str, env: &mut Env) -> Option<String> {
+    classify(t, &Printer::Display(l, c), env).map(|x| x.0)
+}
+
+/// Label of a display printer that fails where (en,en) does not: which of language / locale matters.
+fn display_label(t: &Node, l: &'static str, c: &'static str, env: &mut Env) -> String {
+    if l != "en" && c != "en" {
+        if roundtrip(t, &Printer::Display("en", c), env).is_some() {
+            return format!("display[locale={}]", c);
+        }
+        if roundtrip(t, &Printer::Display(l, "en"), env).is_some() {
+            return format!("display[lang={}]", l);
+        }
+        return format!("display[lang={},locale={}]", l, c);
+    }
+    if l != "en" {
+        format!("display[lang={}]", l)
+    } else {
+        format!("display[locale={}]", c)
+    }
+}
+
+pub struct TreeOut {
+    pub ds: Vec<Disagreement>,
+    pub roundtrips: u64,
+    pub parse_error: bool,
+    pub nontrivial: bool,
+    pub digest: u128,
+}
+
+/// `printers`: "all" = 30 display + rc + excel, "core" = display en/en + de/de, rc, excel.
+pub fn check_text(text: &str, printers: &str, env: &mut Env) -> TreeOut {
+    let t = env.parse_source(text);
+    let mut out = TreeOut { ds: vec![], roundtrips: 0, parse_error: false, nontrivial: false, digest: 0 };
+    if fx::has_parse_error(&t) {
+        out.parse_error = true;
+        return out;
+    }
+    out.nontrivial = fx::children(&t).iter().any(|(_, c)| !fx::children(c).is_empty());
+    out.digest = crate::env::digest(&to_rc_format(&t));
+    let mk = |label: &str, pid: &str, core: &(String, String)| Disagreement {
+        sig: format!("roundtrip printer={} {}", label, core.0),
+        case: json!({"text": text, "printer": pid}),
+        detail: format!("formula `{}` printer {}\n{}", text, pid, core.1),
+    };
+    let en = Printer::Display("en", "en");
+    let r_en = classify(&t, &en, env);
+    let r_rc = classify(&t, &Printer::Rc, env);
+    let r_ex = classify(&t, &Printer::Excel, env);
+    out.roundtrips += 3;
+    let same = |a: &Option<(String, String)>, b: &Option<(String, String)>| match (a, b) {
+        (Some(x), Some(y)) => x.0 == y.0,
+        _ => false,
+    };
+    if same(&r_en, &r_rc) && same(&r_rc, &r_ex) {
+        out.ds.push(mk("all", "display:en:en", r_en.as_ref().unwrap()));
+    } else {
+        if let Some(c) = &r_en {
+            out.ds.push(mk("display", "display:en:en", c));
+        }
+        if let Some(c) = &r_rc {
+            out.ds.push(mk("rc", "rc", c));
+        }
+        if let Some(c) = &r_ex {
+            out.ds.push(mk("excel", "excel", c));
+        }
+    }
+    let others: Vec<Printer> = if printers == "all" {
+        all_display().into_iter().filter(|p| *p != en).collect()
+    } else {
+        vec![Printer::Display("de", "de")]
+    };
+    for p in others {
+        out.roundtrips += 1;
+        if roundtrip(&t, &p, env).is_none() {
+            continue;
+        }
+        let r = classify(&t, &p, env);
+        if let (Some(c), Printer::Display(l, lc)) = (&r, &p) {
+            if r_en.as_ref().map(|x| &x.0) != Some(&c.0) {
+                let label = display_label(&t, l, lc, env);
+                out.ds.push(mk(&label, &p.id(), c));
+            }
+        }
+    }
+    out
+}
+
+// ------------------------------------------------------------------ corpus
+
+pub const LEAVES: [&str; 6] = ["1", "A1", "\"a\"", "TRUE", "SUM(1)", "{1,2}"];
+const OPS8: [&str; 8] = ["=", "<", "&", "+", "-", "*", "/", "^"];
+const OPS5: [&str; 5] = ["=", "&", "+", "*", "^"];
+
+pub fn constructs() -> Vec<&'static str> {
+    vec![
+        // references
+        "A1", "$A$1", "A$1", "$A1", "D5", "C3", "XFD1048576", "$XFD$1048576",
+        "A1:B2", "$A$1:$B$2", "A$1:$B2", "D4:E5", "A:A", "$A:$B", "A:$B", "C:E", "1:1", "$1:$2", "1:$2", "3:5",
+        "$1:$1048576", "$A:$XFD", "1:1048576", "A:XFD",
+        "Sheet2!A1", "Sheet2!$A$1:B2", "'My Sheet'!A1", "'It''s'!$A$1:B2", "Sheet2!A:A", "'My Sheet'!1:2",
+        "Sheet1!A1", "NoSheet!A1", "NoSheet!A1:B2", "'No Sheet'!$A1", "'No''Sheet'!A:B",
+        // arrays
+        "{1}", "{1,2}", "{1;2}", "{1,2;3,4}", "{1,2,3;4,5,6}", "{-1,2}", "{\"a\",TRUE;FALSE,#N/A}", "{1.5,-2.5E-3}",
+        "{\"a\"\"b\"}", "{#DIV/0!,#REF!}", "{\"\"}", "{1E+20}",
+        // functions
+        "PI()", "SUM(1)", "SUM(1,2)", "SUM(1,2,3)", "SUM(,1)", "SUM(1,)", "SUM(1,,2)", "IF(TRUE,,2)", "IF(A1,B1,)",
+        "TRUE()", "FALSE()", "NOW()", "foo(1)", "foo()", "Foo.Bar(1,2)", "SUM(A1:B2,C5)", "INDEX(A1:B2,1,1)",
+        "ROUND(1.5,0)", "CONCAT(\"a\",\"b\")", "SUM({1,2},{3;4})", "SEQUENCE(2)", "XLOOKUP(1,A1:A3,B1:B3)",
+        // lambda / let
+        "LAMBDA(x,x+1)", "LAMBDA(x,y,x*y)(1,2)", "LAMBDA(x,[y],x)(1)", "LAMBDA(1)", "LAMBDA(x,x)(LAMBDA(y,y)(2))",
+        "LET(x,1,x+1)", "LET(x,1,y,x+1,x*y)", "LET(f,LAMBDA(a,a*a),f(2))", "LET(F,LAMBDA(a,a*a),F(2))", "BYROW(A1:B2,LAMBDA(r,SUM(r)))",
+        "MAP(A1:A2,LAMBDA(c,c*2))", "LET(R,1,R+1)",
+        // implicit intersection, spill
+        "@A1", "@A1:A3", "@SUM(A1:A3)", "@nm", "@rng", "SUM(@A:A)", "A1#", "Sheet2!A1#", "SUM(A1#)", "$A$1#",
+        "nm#", "@A1#", "@(A1:A2+1)", "(A1:A2)#", "@(A1:B2)", "-(A1:A2)", "(A1:A2)%",
+        // errors
+        "#REF!", "#NAME?", "#VALUE!", "#DIV/0!", "#N/A", "#NUM!", "#ERROR!", "#N/IMPL!", "#SPILL!", "#CALC!", "#CIRC!",
+        "#NULL!",
+        // strings
+        "\"\"", "\"a\"", "\"a\"\"b\"", "\"a b\"", "\"=1+1\"", "\"'\"", "\"é😀\"", "\"1,5\"", "\"a;b\"", "\"{1}\"",
+        "\"TRUE\"", "\" \"",
+        // numbers
+        "0", "1", "1.5", "0.1", "1E+20", "1E-7", "123456789012345", "1.0000000000000002", "12345678901234567",
+        "1E+300", ".5", "5.", "1E5", "1e5", "0.000001", "1E-300",
+        // percent and sign chains
+        "1%%", "A1%%%", "--1", "-+-1", "+1", "-(-1)", "-1%", "-(1%)", "(-1)%", "--A1", "-A1%", "(1)", "((A1))",
+        // names
+        "nm", "rng", "loc", "unknownname", "x.y", "_a", "Nm", "NM+1",
+        // range operator
+        "A1:OFFSET(A1,1,1)", "OFFSET(A1,1,1):A2", "INDEX(A1:B2,1,1):B2", "A1:B2:C3", "A1:nm",
+        // booleans
+        "TRUE", "FALSE", "true",
+    ]
+}
+
+fn operand_forms(c: &str) -> Vec<String> {
+    let mut v = vec![c.to_string(), format!("-({})", c), format!("({})%", c), format!("SUM(({}))", c), format!("SUM({},{})", c, c)];
+    for op in fx::BINOPS {
+        v.push(format!("({}){}1", c, op));
+        v.push(format!("1{}({})", op, c));
+    }
+    // bare (unparenthesised) operand positions as well: the parser decides the tree
+    v.push(format!("{}+1", c));
+    v.push(format!("1+{}", c));
+    v.push(format!("-{}", c));
+    v.push(format!("{}%", c));
+    v
+}
+
+pub struct Corpus {
+    pub all_printers: Vec<String>,
+    pub core_printers: Vec<String>,
+    pub desc: Value,
+}
+
+pub fn corpus(thorough: bool) -> Corpus {
+    let mut all_printers = fx::terms(&LEAVES, &fx::BINOPS, 1, true);
+    let s1 = all_printers.len();
+    let mut s4 = 0;
+    for c in constructs() {
+        let f = operand_forms(c);
+        s4 += f.len();
+        all_printers.extend(f);
+    }
+    let mut core_printers;
+    let s2desc;
+    if thorough {
+        core_printers = fx::terms(&["1"], &OPS8, 2, true);
+        s2desc = "depth<=2, operators {= < & + - * / ^}, leaf 1, unary - and % over leaves and over every binary node";
+    } else {
+        core_printers = fx::terms(&["1"], &OPS8, 2, false);
+        s2desc = "depth<=2, operators {= < & + - * / ^}, leaf 1, unary - and % over every binary node";
+    }
+    let s2 = core_printers.len();
+    let mut s3 = 0;
+    if thorough {
+        // depth 3 without unary operators: build by hand from the depth-2 set without unary
+        let d3 = terms_no_unary(&["1"], &OPS5, 3);
+        s3 = d3.len();
+        core_printers.extend(d3);
+    }
+    all_printers.sort();
+    all_printers.dedup();
+    core_printers.sort();
+    core_printers.dedup();
+    Corpus {
+        desc: json!({
+            "S1 (all 32 printers)": {"terms": s1, "what": "depth<=1, 12 binary operators, leaves {1,A1,\"a\",TRUE,SUM(1),{1,2}}, unary - and % over leaves and binary nodes"},
+            "S4 (all 32 printers)": {"texts": s4, "constructs": constructs().len(), "what": "each construct alone, under unary - and %, as left and right operand of each of the 12 operators (parenthesised and bare), as function argument"},
+            "S2 (en/en, de/de, rc, excel)": {"terms": s2, "what": s2desc},
+            "S3 (en/en, de/de, rc, excel)": {"terms": s3, "what": "thorough only: depth<=3, operators {= & + * ^}, leaf 1, no unary"},
+        }),
+        all_printers,
+        core_printers,
+    }
+}
+
+fn terms_no_unary(leaves: &[&str], ops: &[&str], depth: usize) -> Vec<String> {
+    let mut levels: Vec<Vec<(String, bool)>> = vec![leaves.iter().map(|l| (l.to_string(), true)).collect()];
+    for k in 1..=depth {
+        let mut cur = vec![];
+        let lower: Vec<(usize, (String, bool))> =
+            levels.iter().enumerate().flat_map(|(d, v)| v.iter().map(move |t| (d, t.clone()))).collect();
+        for (da, a) in &lower {
+            for (db, b) in &lower {
+                if *da != k - 1 && *db != k - 1 {
+                    continue;
+                }
+                for op in ops {
+                    let w = |t: &(String, bool)| if t.1 { t.0.clone() } else { format!("({})", t.0) };
+                    cur.push((format!("{}{}{}", w(a), op, w(b)), false));
+                }
+            }
+        }
+        levels.push(cur);
+    }
+    levels.into_iter().flatten().map(|(t, _)| t).collect()
+}
+
+// ------------------------------------------------------------------ model level
+
+fn model_texts(thorough: bool) -> Vec<String> {
+    let mut v = if thorough {
+        fx::terms(&["2", "3"], &OPS8, 2, false)
+    } else {
+        fx::terms(&["2", "3"], &OPS5, 2, false)
+    };
+    for c in constructs() {
+        if heavy(c) {
+            continue;
+        }
+        v.push(c.to_string());
+        v.push(format!("1+({})", c));
+        v.push(format!("({})&\"x\"", c));
+    }
+    v.sort();
+    v.dedup();
+    v
+}
+
+/// Constructs whose evaluation materialises a whole row / column / sheet (up to 17e9 cells): printed and parsed at
+/// AST level only, never evaluated.
+pub fn heavy(c: &str) -> bool {
+    if c == "SUM(@A:A)" {
+        return false;
+    }
+    [
+        "A:A", "$A:$B", "A:$B", "C:E", "1:1", "$1:$2", "1:$2", "3:5", "$1:$1048576", "$A:$XFD", "1:1048576", "A:XFD",
+        "'My Sheet'!1:2", "'No''Sheet'!A:B",
+    ]
+    .iter()
+    .any(|h| c.contains(h))
+}
+
+fn new_model(lang: &'static str) -> Model<'static> {
+    let mut m = Model::new_empty("m", lang, "UTC", lang).expect("model");
+    let _ = m.rename_sheet_by_index(0, "Sheet1");
+    for s in &SHEETS[1..] {
+        let _ = m.add_sheet(s);
+    }
+    let _ = m.set_user_input(0, 1, 1, "2".to_string());
+    let _ = m.set_user_input(0, 2, 1, "5".to_string());
+    let _ = m.set_user_input(0, 1, 2, "7".to_string());
+    let _ = m.set_user_input(0, 2, 2, "11".to_string());
+    let _ = m.set_user_input(1, 1, 1, "13".to_string());
+    let _ = m.new_defined_name("nm", None, "Sheet1!$A$1");
+    let _ = m.new_defined_name("rng", None, "Sheet1!$A$1:$B$2");
+    let _ = m.new_defined_name("loc", Some(0), "Sheet2!$A$1");
+    m
+}
+
+pub struct ModelOut {
+    pub ds: Vec<Disagreement>,
+    pub accepted: bool,
+    pub explained: u64,
+    pub calls: u64,
+}
+
+/// Row 8, column 3 of Sheet1 is the formula cell (nothing of the seed data spills into it).
+pub fn check_model(text: &str, lang: &'static str, env: &mut Env) -> ModelOut {
+    let mut out = ModelOut { ds: vec![], accepted: false, explained: 0, calls: 0 };
+    let t = env.parse_source(text);
+    if fx::has_parse_error(&t) {
+        return out;
+    }
+    let body = to_localized_string(&t, &cx(), fx::loc(lang), fx::lang(lang));
+    let typed = format!("={}", body);
+    // the subject is the typed text: its own tree (as the parser of that language reads it) is what must survive
+    let t = env.disp.get_mut(&(lang, lang)).expect("parser").parse(&body, &cx());
+    if fx::has_parse_error(&t) {
+        return out;
+    }
+    let disp = Printer::Display(lang, lang);
+    let ast_display = classify(&t, &disp, env);
+    let ast_rc = classify(&t, &Printer::Rc, env);
+    let mut m = new_model(lang);
+    let (r, c) = (CROW, CCOL);
+    let val = |m: &Model| format!("{:?}", m.get_cell_value_by_index(0, r, c));
+    if m.set_user_input(0, r, c, typed.clone()).is_err() {
+        return out;
+    }
+    m.evaluate();
+    out.calls += 2;
+    let rc0 = match fx::stored_rc(&m, 0, r, c) {
+        Some(s) => s,
+        None => return out, // not taken as a formula
+    };
+    out.accepted = true;
+    let v0 = val(&m);
+    let shown = m.get_cell_formula(0, r, c).ok().flatten().unwrap_or_default();
+    let mk = |stage: &str, detail: String| Disagreement {
+        sig: format!("model {} lang={}", stage, lang),
+        case: json!({"model": true, "text": text, "lang": lang}),
+        detail: format!("typed `{}` (stored `{}`, value {})\n{}", typed, rc0, v0, detail),
+    };
+    // re-enter the shown text
+    let mut reenter_bad = None;
+    match m.set_user_input(0, r, c, shown.clone()) {
+        Err(e) => reenter_bad = Some(format!("re-entering the shown text `{}` failed: {}", shown, e)),
+        Ok(()) => {
+            m.evaluate();
+            let rc1 = fx::stored_rc(&m, 0, r, c).unwrap_or_default();
+            let v1 = val(&m);
+            if rc1 != rc0 || v1 != v0 {
+                reenter_bad = Some(format!("shown `{}`, re-entered: stored `{}`, value {}", shown, rc1, v1));
+            }
+        }
+    }
+    out.calls += 2;
+    if let Some(why) = reenter_bad {
+        if ast_display.is_some() {
+            out.explained += 1;
+        } else {
+            out.ds.push(mk("reenter", why));
+        }
+        // restore the original for the reload stage
+        let _ = m.set_user_input(0, r, c, typed.clone());
+        m.evaluate();
+    }
+    // save / load
+    let rc_before = fx::stored_rc(&m, 0, r, c).unwrap_or_default();
+    let v_before = val(&m);
+    let shown_before = m.get_cell_formula(0, r, c).ok().flatten().unwrap_or_default();
+    let bytes = m.to_bytes();
+    out.calls += 2;
+    match crate::env::guarded(|| Model::from_bytes(&bytes, lang)) {
+        Ok(Ok(mut m2)) => {
+            m2.evaluate();
+            let rc2 = fx::stored_rc(&m2, 0, r, c).unwrap_or_default();
+            let v2 = format!("{:?}", m2.get_cell_value_by_index(0, r, c));
+            let shown2 = m2.get_cell_formula(0, r, c).ok().flatten().unwrap_or_default();
+            if rc2 != rc_before || v2 != v_before || shown2 != shown_before {
+                if ast_rc.is_some() {
+                    out.explained += 1;
+                } else {
+                    out.ds.push(mk(
+                        "reload",
+                        format!(
+                            "after to_bytes/from_bytes: stored `{}` (was `{}`), shown `{}` (was `{}`), value {} (was {})",
+                            rc2, rc_before, shown2, shown_before, v2, v_before
+                        ),
+                    ));
+                }
+            }
+        }
+        Ok(Err(e)) => out.ds.push(mk("reload-error", e)),
+        Err(p) => out.ds.push(mk("reload-panic", p)),
+    }
+    out
+}
+
+// ------------------------------------------------------------------ driver
+
+pub fn run(run: &mut Run) {
+    let thorough = run.tier.thorough();
+    let corp = corpus(thorough);
+    let mut work: Vec<(&str, &String)> = vec![];
+    for t in &corp.all_printers {
+        work.push(("all", t));
+    }
+    for t in &corp.core_printers {
+        work.push(("core", t));
+    }
+    let chunk = if thorough { 2048 } else { 256 };
+    let n_units = work.len().div_ceil(chunk);
+    let res = crate::env::par_units(n_units, |u| {
+        let mut env = Env::new();
+        let mut ds = vec![];
+        let (mut rt, mut pe, mut nt, mut n) = (0u64, 0u64, 0u64, 0u64);
+        let mut dig = std::collections::BTreeSet::new();
+        for (mode, text) in work.iter().skip(u * chunk).take(chunk) {
+            let o = check_text(text, mode, &mut env);
+            n += 1;
+            rt += o.roundtrips;
+            if o.parse_error {
+                pe += 1;
+            } else {
+                dig.insert(o.digest);
+                if o.nontrivial {
+                    nt += 1;
+                }
+            }
+            ds.extend(o.ds);
+        }
+        (ds, rt, pe, nt, n, dig)
+    });
+    let mut trees = std::collections::BTreeSet::new();
+    let mut parse_errors = 0u64;
+    for r in res {
+        match r {
+            Ok((ds, rt, pe, nt, n, dig)) => {
+                run.add_all(ds);
+                run.transitions += 2 * rt;
+                run.traces += rt;
+                parse_errors += pe;
+                run.nontrivial += nt;
+                run.evaluations += n;
+                trees.extend(dig);
+            }
+            Err(e) => run.machinery_errors.push(format!("unit panicked: {}", e)),
+        }
+    }
+    // model level
+    let mtexts = model_texts(thorough);
+    let mut mwork: Vec<(&'static str, &String)> = vec![];
+    for l in ["en", "de"] {
+        for t in &mtexts {
+            mwork.push((l, t));
+        }
+    }
+    let mchunk = 128;
+    let res = crate::env::par_units(mwork.len().div_ceil(mchunk), |u| {
+        let mut env = Env::new();
+        let mut ds = vec![];
+        let (mut acc, mut expl, mut calls) = (0u64, 0u64, 0u64);
+        for (l, t) in mwork.iter().skip(u * mchunk).take(mchunk) {
+            let o = check_model(t, l, &mut env);
+            if o.accepted {
+                acc += 1;
+            }
+            expl += o.explained;
+            calls += o.calls;
+            ds.extend(o.ds);
+        }
+        (ds, acc, expl, calls)
+    });
+    let (mut macc, mut mexpl) = (0u64, 0u64);
+    for r in res {
+        match r {
+            Ok((ds, acc, expl, calls)) => {
+                run.add_all(ds);
+                macc += acc;
+                mexpl += expl;
+                run.transitions += calls;
+            }
+            Err(e) => run.machinery_errors.push(format!("model unit panicked: {}", e)),
+        }
+    }
+    run.evaluations += mwork.len() as u64;
+    run.traces += macc;
+    run.states = trees.len() as u64;
+    run.distinct_outcomes = trees.len() as u64;
+    run.rule = "texts whose parsed tree has an operator/function node below the root (a nesting the printer must decide parentheses for); distinct trees counted by stored form".into();
+    run.sample(json!({"text": work[0].1, "printers": work[0].0}));
+    run.sample(json!({"text": work[work.len() / 2].1, "printers": work[work.len() / 2].0}));
+    run.sample(json!({"text": work[work.len() - 1].1, "printers": work[work.len() - 1].0}));
+    run.sample(json!({"model": true, "text": mtexts[mtexts.len() / 2], "lang": "de"}));
+    run.bound = json!({
+        "ast_level": corp.desc,
+        "texts": work.len(),
+        "texts_not_accepted_by_parser": parse_errors,
+        "printers": {"display": "5 languages x 6 locales", "rc": "to_rc_format re-read in R1C1 mode", "excel": "to_excel_string re-read in English A1 (modulo implicit intersection)"},
+        "context_cell": "Sheet1!C3; sheets Sheet1, Sheet2, 'My Sheet', 'It''s'; defined names nm, rng, loc(Sheet1)",
+        "model_level": {"texts": mtexts.len(), "languages": ["en/en", "de/de"], "accepted_as_formula": macc, "failures_already_explained_by_ast_level": mexpl},
+    });
+    run.extra.insert("model_level_explained_by_ast".into(), json!(mexpl));
+    run.exhaustive = true;
+    run.assume("trees are exactly those the English A1 parser produces from the enumerated texts; texts it rejects are counted, not judged");
+    run.assume("xlsx form: export drops redundant implicit-intersection operators and import re-inserts them, so that printer is compared modulo `@` nodes");
+    run.assume("a display printer other than en/en is reported only where it behaves differently from en/en on the same tree");
+    run.assume("model-level failures on a tree whose AST-level round trip already fails for the same printer are counted as explained, not reported twice");
+}
+
+pub fn replay(case: &Value) -> Vec<Disagreement> {
+    let mut env = Env::new();
+    let text = case["text"].as_str().unwrap_or("");
+    if case["model"].as_bool() == Some(true) {
+        let lang: &'static str = if case["lang"].as_str() == Some("de") { "de" } else { "en" };
+        return check_model(text, lang, &mut env).ds;
+    }
+    let pid = case["printer"].as_str().unwrap_or("display:en:en");
+    let _ = Printer::from_id(pid);
+    let o = check_text(text, "all", &mut env);
+    // keep the disagreements of the recorded printer (or all of them if it was the merged `all` label)
+    let v: Vec<Disagreement> = o.ds.iter().filter(|d| d.case["printer"] == case["printer"]).cloned().collect();
+    if v.is_empty() {
+        o.ds
+    } else {
+        v
+    }
 }
